@@ -17,6 +17,7 @@ from hugr import ops, tys, val
 from hugr.build.base import ParentBuilder
 from hugr.exceptions import NoSiblingAncestor
 from hugr.hugr import Hugr
+from hugr.hugr.node_port import Direction
 
 if TYPE_CHECKING:
     from collections.abc import Iterable, Sequence
@@ -596,7 +597,8 @@ class DfBase(ParentBuilder[DP], DefinitionBuilder, AbstractContextManager):
         """
         signature = self._fn_sig(func)
         load_op = ops.LoadFunc(signature, instantiation, type_args)
-        load_n = self.hugr.add_node(load_op, self.parent_node)
+        num_outs = ops._num_dataflow_ports(load_op, Direction.OUTGOING)
+        load_n = self.hugr.add_node(load_op, self.parent_node, num_outs)
         self.hugr.add_link(func.out(0), load_n.inp(0))
 
         return load_n
@@ -616,12 +618,13 @@ class DfBase(ParentBuilder[DP], DefinitionBuilder, AbstractContextManager):
         tys = [self._wire_up_port(node, i, p) for i, p in enumerate(ports)]
         if isinstance(op := self.hugr[node].op, ops._PartialOp):
             op._set_in_types(tys)
-            if isinstance(op, ops.DataflowOp):
-                # Update the node's input and output port count
-                sig = op.outer_signature()
-                self.hugr._update_port_count(
-                    node, num_inps=len(sig.input), num_outs=len(sig.output)
-                )
+        # Update the node's input and output port count, once the operation is
+        # complete. Unconnected ports are counted too.
+        self.hugr._update_port_count(
+            node,
+            num_inps=ops._num_dataflow_ports(op, Direction.INCOMING),
+            num_outs=ops._num_dataflow_ports(op, Direction.OUTGOING),
+        )
         return tys
 
     def _get_dataflow_type(self, wire: Wire) -> tys.Type:
